@@ -57,15 +57,73 @@ let explore_model (p : params) (scen : string list) (seed : int) (runs : int) : 
          (fun st -> if int_of_nat (l_overlaps st) > 0 then Some "two holders at once in the model"
                     else if int_of_nat (l_uncovered st) > 0 then Some "a holder reads the protected cell without the previous holder's write being visible (view not covered)"
                     else None)
-     | ["once"; n] ->
+     | "once" :: n :: rest ->
        let n = int_of_string n in
-       try_run (ostep p) (oinit (nat_of_int n)) n
+       let calls = (match rest with c :: _ -> int_of_string c | [] -> 1) in
+       try_run (ostep p) (oinit (nat_of_int n) (nat_of_int calls)) n
          (fun st -> if int_of_nat (o_runs st) > 1 then Some "function body ran twice in the model"
                     else if int_of_nat (o_early st) > 0 then Some "a caller returned without the function's write being visible (view not covered)"
                     else None)
      | _ -> r := runs)
   done;
   if not !found then print_endline "NOTFOUND"
+
+(* ---- value semantics of the atomic operations (Lib/AtomicTie.v: aop_sem), for the unhooked smoke run ---- *)
+let bits_of = function "int" | "i32" -> Some 32 | "i64" -> Some 64 | "byte" -> Some 8 | _ -> None
+let aop_of (variant : string) (tok : string) : aop option =
+  let z = z_of_string in
+  match String.split_on_char ':' tok, variant with
+  | ["ld"], _ -> Some ALoad
+  | ["st"; v], _ -> Some (AStore (z v))
+  | ["xc"; v], ("int" | "i32" | "i64") -> Some (AXchg (z v))
+  | [("cw" | "cs"); e; d], ("int" | "i32" | "i64") -> Some (ACas (z e, z d))
+  | ["fa"; v], ("int" | "i32" | "i64") -> Some (AFadd (z v))
+  | ["fs"; v], ("int" | "i32" | "i64") -> Some (AFsub (z v))
+  | ["ts"], "byte" -> Some ATas
+  | ["cl"], "byte" -> Some AClear
+  | _ -> None
+let atomics_single variant init ops =
+  (match bits_of variant with
+   | None -> Printf.printf "A bad-variant %s\n" variant
+   | Some bits ->
+     let b = z_of_int bits in
+     let cell = ref (wraps b (z_of_string init)) in
+     List.iter (fun tok ->
+       match (try aop_of variant tok with _ -> None) with
+       | None -> Printf.printf "A bad-op %s\n" tok
+       | Some o ->
+         let ((c, res), e) = aop_sem b !cell o in
+         cell := c;
+         Printf.printf "A %s res=%s exp=%s cell=%s\n" tok (string_of_z res) (string_of_z e) (string_of_z c)) ops);
+  print_endline "F atomics"
+(* two threads: the final values do not depend on the interleaving, so one schedule (thread 0 then thread 1)
+   of the same operations on the model gives them *)
+let atomics_pair variant iters =
+  (match bits_of variant, int_of_string_opt iters with
+   | Some bits, Some n when variant <> "byte" && n >= 0 && n <= 100000 ->
+     let b = z_of_int bits in
+     let run cell ops = fst (aop_run b cell ops) in
+     let rep k f = List.concat (List.init k f) in
+     let up = run Z0 (rep (2 * n) (fun _ -> [AFadd (z_of_int 1)])) in
+     let down = run (z_of_int (2 * n)) (rep (2 * n) (fun _ -> [AFsub (z_of_int 1)])) in
+     let cas = run Z0 (rep (2 * n) (fun i -> [ACas (z_of_int i, z_of_int (i + 1))])) in
+     let held = ref 0 in
+     let c = ref Z0 in
+     for _ = 1 to 2 * n do
+       let ((c1, r), _) = aop_sem (z_of_int 8) !c ATas in
+       if string_of_z r = "1" then incr held;
+       let ((c2, _), _) = aop_sem (z_of_int 8) c1 AClear in c := c2
+     done;
+     (* exchange: old values returned + final value - values stored - initial value *)
+     let stored = List.concat (List.init 2 (fun me -> List.init n (fun i -> me * n + i + 1))) in
+     let (fin, outs) = aop_run b (z_of_int 7) (List.map (fun v -> AXchg (z_of_int v)) stored) in
+     let olds = List.fold_left (fun a (r, _) -> a + int_of_z r) 0 outs in
+     let balance = olds + int_of_z fin - List.fold_left (+) 0 stored - 7 in
+     Printf.printf "A2 fadd=%s fsub=%s cass=%s casw=%s lock=%d xchg=%d\n" (string_of_z up) (string_of_z down)
+       (string_of_z cas) (string_of_z cas) !held balance
+   | Some _, Some _ when variant <> "byte" -> print_endline "A2 bad-iters"
+   | _ -> Printf.printf "A2 bad-variant %s\n" variant);
+  print_endline "F atomics"
 
 let handle (lines : string list) : unit =
   let rec split acc = function
@@ -75,7 +133,7 @@ let handle (lines : string list) : unit =
   let (cfg, trace) = split [] lines in
   let scen = ref [] and prm = ref params and explore = ref None in
   List.iter (fun l -> match words l with
-    | ("lock" | "once" | "refcnt") :: _ as w -> scen := w
+    | ("lock" | "once" | "refcnt" | "atomics" | "atomics2") :: _ as w -> scen := w
     | "params" :: ps -> prm := params_of ps
     | ["explore"; sd; runs] -> explore := Some (int_of_string sd, int_of_string runs)
     | _ -> ()) cfg;
@@ -90,10 +148,11 @@ let handle (lines : string list) : unit =
     let step = lstep params true in
     let (st, ok) = accept_trace step st0 cell_id choice_of note_of (none_enabled step n) trace in
     if ok then Printf.printf "F counter=%s overlaps=%d\n" (string_of_z (l_counter st)) (int_of_nat (l_overlaps st))
-  | ["once"; n] ->
+  | "once" :: n :: rest ->
     let n = int_of_string n in
+    let calls = (match rest with c :: _ -> max 1 (int_of_string c) | [] -> 1) in
     let step = ostep params in
-    let (st, ok) = accept_trace step (oinit (nat_of_int n)) cell_id choice_of note_of (none_enabled step n) trace in
+    let (st, ok) = accept_trace step (oinit (nat_of_int n) (nat_of_int calls)) cell_id choice_of note_of (none_enabled step n) trace in
     if ok then Printf.printf "F runs=%d done=%s\n" (int_of_nat (o_runs st)) (string_of_z (o_done st))
   | "refcnt" :: v :: scripts ->
     let v = int_of_string v in
@@ -106,8 +165,14 @@ let handle (lines : string list) : unit =
       let st0 = rinit (nat_of_int n) (z_of_int v) (fun t -> let i = int_of_nat t in if i < n then arr.(i) else []) in
       let step = rstep params in
       let (st, ok) = accept_trace step st0 cell_id choice_of note_of (none_enabled step n) trace in
-      if ok then Printf.printf "F ref=%s\n" (string_of_z (r_ref st))
+      if ok then begin
+        (* v + 1 computed at INT_MAX is undefined in C: no agreement is claimed for such a run *)
+        if int_of_nat (r_ovf st) > 0 then print_endline "F signed-overflow-in-retain";
+        Printf.printf "F ref=%s\n" (string_of_z (r_ref st))
+      end
     end
+  | "atomics" :: variant :: init :: ops -> atomics_single variant init ops
+  | ["atomics2"; variant; iters] -> atomics_pair variant iters
   | _ -> print_endline "F badcase"
 
 let () = run_cases handle
